@@ -15,9 +15,9 @@ import (
 )
 
 const (
-	TagData  = 0
-	TagError = 1
-	TagInfo  = 2
+	TagData   = 0
+	TagError  = 1
+	TagInfo   = 2
 	MplexBase = 7
 )
 
